@@ -38,7 +38,7 @@ def run(tier, seed):
         "samples": [rows[0], next(x for x in rows if x["kind"] == "block")],
         "evaluations": len(rows), "distinct_nontrivial": len(rows), "exhaustive": True,
         "rule": "every object shape of the TLA+ grammar Wire!Objects (%d shapes: QC, TC, vote, aggregate QC incl. distinct QCs for one block, block, proposal, sync info, timeout "
-                "message; optional parts present/absent; 1/quorum/all signers; empty/one/many commands; extreme views, proposer ids and timestamps) x ECDSA, EdDSA, BLS12, built "
+                "message; optional parts present/absent; 1/quorum/all signers; empty/one/many commands; extreme views, proposer ids and timestamps) x ECDSA, EdDSA, BLS12 (4 replicas) and BLS12 in a configuration of 67 replicas whose signer classes take the highest ids, built "
                 "with real keys, sent through ToProto/Marshal/Unmarshal/FromProto; projection = hash, bytes-to-sign, participants, fields, verdict of another replica's Authority; "
                 "plus the real RequestBlockQF on honest and lying replies" % ncases,
         "by_kind": kinds, "grammar_shapes": ncases, "checker_cmd": rt.cmd,
